@@ -200,4 +200,41 @@ example : ((advSeq [fr 1 31, fr 2 40] 0 [10, 25, 36]).1.map (·.key), (advSeq [f
 example : ((advSeq [fr 1 31, fr 2 40] 0 [10, 25]).1.map (·.key), (advSeq [fr 1 31, fr 2 40] 0 [10, 25]).2.2) =
     ([1], 4) := by decide
 
+/-! model-level runs: two queries over one TCP connection (`ARES_FLAG_USEVC`) -/
+
+def t0 : St := { alive := true, cfg := { flags := 1 }, servers := [{ id := 0, addr := "a" }], obs := { rnd2 := [7, 8] } }
+def t1 : St := (exec 50 (.sendNolock none false false { name := "", qtype := 1 } (.user 1) []) t0).1
+/-- both frames are queued on the (not yet connected) TCP connection -/
+def t2 : St := (exec 50 (.sendNolock none false false { name := "", qtype := 1 } (.user 2) []) t1).1
+def writes : Nat → St → St
+  | 0, s => s
+  | n + 1, s => writes n (exec 50 (.processWrite 100) s).1
+def withWl (s : St) (wl : List Nat) : St := s.modSock 100 fun v => { v with wl := wl }
+/-- any acceptance pattern (here: all at once; 5 + 20 + rest; byte-wise start, a would-block, then the rest): the
+    server receives the same two whole messages in the same order -/
+example : (writes 1 t2).txs.map Tx.view = [(100, true, 0, 7, 17), (100, true, 1, 8, 17)] := by decide
+example : (writes 3 (withWl t2 [5, 20])).txs.map Tx.view = (writes 1 t2).txs.map Tx.view := by decide
+example : (writes 5 (withWl t2 [1, 1, 0, 18])).txs.map Tx.view = (writes 1 t2).txs.map Tx.view := by decide
+/-- after 5 + 20 of 38 bytes only the first message is complete -/
+example : (writes 2 (withWl t2 [5, 20])).txs.map Tx.view = [(100, true, 0, 7, 17)] := by decide
+
+def t3 : St := writes 1 t2
+def r7 : Reply := { id := 7, name := "", qtype := 1, qclass := 1, rcode := 0, an := 1, ttls := [300], len := 30 }
+def r8 : Reply := { id := 8, name := "", qtype := 1, qclass := 1, rcode := 0, an := 1, ttls := [300], len := 40 }
+/-- the server answers both queries in one stream; `chunks` scripts the sizes of the client's reads -/
+def withStream (s : St) (chunks : List Nat) : St :=
+  s.modSock 100 fun v => { v with stream := [(32, r7), (74, r8)], slen := 74, chunks := chunks }
+def reads : Nat → St → St
+  | 0, s => s
+  | n + 1, s => reads n (exec 50 (.processRead 100) s).1
+/-- one read, two reads split inside the second message, five reads with one-byte pieces: same responses accepted in
+    the same order, same callbacks -/
+example : (reads 1 (withStream t3 [])).accepted = [(100, 0, r7), (100, 1, r8)] ∧
+    (reads 1 (withStream t3 [])).doneToks = [1, 2] := by decide
+example : (reads 2 (withStream t3 [33, 41])).accepted = (reads 1 (withStream t3 [])).accepted := by decide
+example : (reads 5 (withStream t3 [1, 30, 1, 41, 1])).accepted = (reads 1 (withStream t3 [])).accepted ∧
+    (reads 5 (withStream t3 [1, 30, 1, 41, 1])).doneToks = [1, 2] := by decide
+/-- 31 of the first message's 32 bytes: nothing is delivered yet -/
+example : (reads 1 (withStream t3 [31, 43])).accepted = [] := by decide
+
 end Cares.C20
